@@ -33,7 +33,7 @@ JVM_ENV = {"JAVA_TOOL_OPTIONS": "-XX:ParallelGCThreads=1 -XX:CICompilerCount=2"}
 DEVS = ["PrimeTableEndsAt1009", "ZeroPadExtension", "NSquaredPhase", "ShiftDenominator8",
         "TapWindowOffByOne", "LsGramNotConjugated",
         "UserCreationAliasesRoot", "WindowCachedOnEstimator", "ResultBufferReused"]     # the last three: RefSession.tla
-INVARIANTS = ["PrimeIsLargest", "ConstantAmplitude", "ZeroAutocorrelation", "FlatSpectrum", "CyclicExtension",
+INVARIANTS = ["PrimeIsLargest", "ConstantAmplitude", "ZeroAutocorrelation", "FlatSpectrum", "LargeLengthLags", "CyclicExtension",
               "RootIsExtendedZc", "UeIsShiftedRoot", "ShiftOrthogonality", "LsExact", "LsScaleCovariant", "ScenarioOk",
               "EstimateExact", "EstimateHomogeneous"]
 ACTIONS = ["PrimeCase", "ZcCase", "ExtCase", "RootCase", "UeCase", "ShiftCase", "LsCase", "EstCase"]
@@ -76,28 +76,33 @@ def plan(tier, seed):
               {59, 57}, {61, 63}, {67}, {71}, {73}, {79}, {83}, {89}, {97}]
         fam["zc"] = [dict(ZcNs=ns, SpecMax=61) for ns in zc]
     else:
-        fam["zc"] = [dict(ZcNs=ns, SpecMax=23) for ns in ({3, 5, 7, 9, 11, 13, 15, 17, 19, 21, 23}, {25, 27, 29}, {31})]
+        fam["zc"] = [dict(ZcNs=ns, SpecMax=23) for ns in ({3, 5, 7, 9, 11, 13, 15, 17, 19, 21, 23, 25}, {27, 29, 31})]
     fam["ext"] = [dict(ExtNs={3, 5, 7, 11, 13, 17} if thorough else {3, 5, 7, 11, 13})]
     # RootSequence: probes at every size; complete sequences for a seeded subset, the sizes around the end
     # of the stored table and the largest sizes
     nfull = MAX_SIZE - 24 if thorough else 200
     full = set(int(x) for x in rng.choice(np.arange(25, MAX_SIZE + 1), nfull, replace=False))
     full |= {25, 26, 29, 30, 36, 48, 139, 150, 1008, 1009, 1010, 1012, 1013, 1014, 1019, 1193, 1199, 1200}
-    fam["root"] = [dict(RootSizes=ch, RootFull=ch & full) for ch in chunks(range(25, MAX_SIZE + 1), 6 if thorough else 3)]
+    fam["root"] = [dict(RootSizes=ch, RootFull=ch & full) for ch in chunks(range(25, MAX_SIZE + 1), 6 if thorough else 2)]
     ue_sizes = ([36, 48, 60, 72, 96, 120, 139, 144, 150, 192, 288, 300, 576, 600, 864, 1000, 1152, 1200] if thorough
                 else [36, 48, 72, 139, 150, 300, 600, 1000])
-    fam["ue"] = [dict(UeSizes=ch) for ch in chunks(ue_sizes, 4 if thorough else 3)]
+    fam["ue"] = [dict(UeSizes=ch) for ch in chunks(ue_sizes, 4 if thorough else 2)]
     if thorough:
         ls = [12, 24] + list(range(25, 201)) + [int(x) for x in rng.choice(np.arange(201, 1201), 36, replace=False)]
     else:
         ls = [12, 24] + list(range(25, 73)) + [int(x) for x in rng.choice(np.arange(73, 1201), 10, replace=False)]
-    fam["shift"] = [dict(ShiftLs=ch) for ch in chunks(ls, 6 if thorough else 3)]
+    fam["shift"] = [dict(ShiftLs=ch) for ch in chunks(ls, 6 if thorough else 2)]
     fam["ls"] = [dict(NLs=1500 if thorough else 200)]
-    est_ls = [12, 24, 32, 36, 40, 48, 60, 64, 72, 96, 120, 144, 192, 288, 576] if thorough else [12, 24, 32, 36, 48, 72, 96]
-    nv = 32 if thorough else 6
+    # lengths: multiples of the number of shifts (other users on other shifts) AND others (36, 60, 139, 150 for SRS; 32, 40,
+    # 139 for DMRS: single user / same-shift cover-code user only)
+    est_ls = ([12, 24, 32, 36, 40, 48, 60, 64, 72, 96, 120, 139, 144, 150, 192, 288, 300, 576] if thorough
+              else [12, 24, 32, 36, 40, 48, 60, 72, 96, 139, 150])
+    nv = 24 if thorough else 6
     fam["est"] = [dict(EstFams={f}, EstLs=set(est_ls), EstNrx={1, 2, 3, 4}, EstVars=ch)
                   for f in ("srs", "dmrs", "occ") for ch in chunks(range(1, nv + 1), 4 if thorough else 1)]
     if thorough:
+        # the largest allocations (50 and 100 resource blocks): boundary, dense and seeded variant, 1 and 4 antennas
+        fam["est"] += [dict(EstFams={f}, EstLs={L}, EstNrx={1, 4}, EstVars={1, 2, 4}) for f in ("srs", "dmrs", "occ") for L in (600, 1200)]
         return [(f"{k}/{i}", [k], p) for k, ps in fam.items() for i, p in enumerate(ps)]
     # quick: fewer JVMs (start-up and JIT dominate the cost of small runs)
     jobs = [("prime+ext+ls", ["prime", "ext", "ls"], {**fam["prime"][0], **fam["ext"][0], **fam["ls"][0]})]
@@ -277,6 +282,40 @@ def do_root(c):
     d = maxdiff(r.seq_array()[idx], unit(c["e"], nzc))
     if d > phase_tol(u, size, nzc):
         return "viol", f"RootSequence(u={u}, size={size}) differs from the cyclically extended Zadoff-Chu sequence by {d:.3g}"
+    req = set(c.get("req", ()))
+    if req - {"ConstantAmplitude", "ZeroAutocorrelation", "FlatSpectrum"}:
+        raise tlc.TlcError(f"root case requires laws the replay does not evaluate: {sorted(req)}")
+    if req:
+        # (rel) the CAZAC laws on the library's OWN base sequence of this length: RootSequence(u, Nzc=nzc) - the
+        # documented form without `size` - must be the base part, have unit modulus, zero cyclic autocorrelation at
+        # every non-zero lag and a flat spectrum.  delta = what float64 can hold of the largest phase.
+        if nzc > 24:
+            base = RootSequence(root_index=u, Nzc=nzc)
+            x = np.asarray(base.seq_array())
+            if base.size != nzc or base.Nzc != nzc or x.shape != (nzc,):
+                return "viol", f"RootSequence(root_index={u}, Nzc={nzc}) has size {base.size}, Nzc {base.Nzc}, shape {x.shape}"
+        else:       # a bare sequence of at most two resource blocks cannot be requested from the class (QPSK rows)
+            from pyphysim.reference_signals.zadoffchu import calcBaseZC
+            x = calcBaseZC(nzc, u)
+        delta = phase_tol(u, nzc, nzc)
+        if maxdiff(x, r.seq_array()[:nzc]) > 0:
+            return "viol", f"RootSequence(u={u}, Nzc={nzc}) is not the base part of RootSequence(u={u}, size={size})"
+        amp = float(np.max(np.abs(np.abs(x) - 1.0)))
+        if amp > delta:
+            return "viol", f"base sequence (u={u}, Nzc={nzc}): modulus deviates from 1 by {amp:.3g} (ConstantAmplitude)"
+        P = np.abs(np.fft.fft(x)) ** 2
+        flat = float(np.max(np.abs(P - nzc)))
+        if flat > max(1e-6, 4 * nzc ** 1.5 * delta):
+            return "viol", f"base sequence (u={u}, Nzc={nzc}): |DFT|^2 deviates from {nzc} by {flat:.3g} (FlatSpectrum)"
+        R = np.fft.ifft(P)
+        side = float(np.max(np.abs(R[1:])))
+        if side > max(1e-9 * nzc, 4 * nzc * delta) or abs(R[0] - nzc) > max(1e-9 * nzc, 4 * nzc * delta):
+            return "viol", (f"base sequence (u={u}, Nzc={nzc}): cyclic autocorrelation at a non-zero lag is {side:.3g}, "
+                            f"peak {abs(R[0]):.6g} (ZeroAutocorrelation)")
+        for lag in c["lags"]:            # the lags TLC decided on the exponents, directly (no FFT)
+            v = abs(np.vdot(np.roll(x, -lag), x))
+            if v > max(1e-9 * nzc, 4 * nzc * delta):
+                return "viol", f"base sequence (u={u}, Nzc={nzc}): autocorrelation at lag {lag} is {v:.3g} (ZeroAutocorrelation)"
     return "ok", ""
 
 
@@ -334,27 +373,33 @@ def do_ls(c):
     from pyphysim.channel_estimation.estimators import compute_ls_estimation
     S, H, Y = gmat(c["s"]), gmat(c["h"]), gmat(c["y"])
     S2, H2, Y2 = gmat(c["s2"]), gmat(c["h2"]), gmat(c["y2"])
+    S3, H3, Y3 = gmat(c["s3"]), gmat(c["h3"]), gmat(c["y3"])
     form = c["form"]
     fortran = c["id"] % 2 == 1                       # memory layout of the arguments must not matter
     lay = np.asfortranarray if fortran else np.ascontiguousarray
+    real = all(not np.any(M.imag) for M in (S, S2, S3))
+    # pilot dtypes: complex always; REAL pilots (+-1 / 0) also as float64 and as int64 arrays (same exact H expected)
+    casts = [lambda M: M] + ([lambda M: np.ascontiguousarray(M.real), lambda M: np.rint(M.real).astype(np.int64)] if real else [])
     # scale covariance (LsScaleCovariant): pilots scaled by f, observation rebuilt from the scaled pilots,
     # the expected channel is the same exact H
-    for f in [1.0] + [scale_of(q) for q in c["scales"]]:
-        if f == 1.0:
-            Sa, Sb, Ya, Yb = S, S2, Y, Y2            # TLC's exact observation
-        else:
-            Sa, Sb = S * f, S2 * f
-            Ya, Yb = H @ Sa, H2 @ Sb
-        if form == "2d":
-            got, want = call(compute_ls_estimation, lay(Ya), lay(Sa)), H
-        elif form == "3d-shared":
-            got, want = call(compute_ls_estimation, lay(np.stack([Ya, Yb])), lay(Sa)), np.stack([H, H2])
-        else:
-            got, want = call(compute_ls_estimation, lay(np.stack([Ya, Yb])), lay(np.stack([Sa, Sb]))), np.stack([H, H2])
-        d = maxdiff(got, want)
-        if d > TOL * max(1.0, float(np.max(np.abs(want)))):
-            return "viol", (f"compute_ls_estimation ({form}, pilots {S.shape} scaled by {f:g}) misses the channel by {d:.3g} "
-                            f"(scale covariance: H_hat(H cS, cS) = H)")
+    for ci, cast in enumerate(casts):
+        for f in [1.0] + ([scale_of(q) for q in c["scales"]] if ci < 2 else [1000.0]):
+            if f == 1.0:
+                Sa, Sb, Sc, Ya, Yb, Yc = S, S2, S3, Y, Y2, Y3            # TLC's exact observation
+            else:
+                Sa, Sb, Sc = S * f, S2 * f, S3 * f
+                Ya, Yb, Yc = H @ Sa, H2 @ Sb, H3 @ Sc
+            if form == "2d":
+                got, want = call(compute_ls_estimation, lay(Ya), lay(cast(Sa))), H
+            elif form == "3d-shared":
+                got, want = call(compute_ls_estimation, lay(np.stack([Ya, Yb, Yc])), lay(cast(Sa))), np.stack([H, H2, H3])
+            else:
+                got, want = (call(compute_ls_estimation, lay(np.stack([Ya, Yb, Yc])), lay(cast(np.stack([Sa, Sb, Sc])))),
+                             np.stack([H, H2, H3]))
+            d = maxdiff(got, want)
+            if d > TOL * max(1.0, float(np.max(np.abs(want)))):
+                return "viol", (f"compute_ls_estimation ({form}, pilots {S.shape} {np.asarray(cast(Sa)).dtype} scaled by {f:g}, "
+                                f"{H.shape[0]} rx) misses the channel by {d:.3g} (scale covariance: H_hat(H cS, cS) = H)")
     return "ok", ""
 
 
@@ -406,7 +451,11 @@ def estimate(sc, est_taps, root, tgt=None, estimator=None, factor=1.0):
         if estimator is not None:
             est = estimator
         else:
-            est = CazacBasedChannelEstimator(tgt.seq_array() if sc["asarray"] else tgt, size_multiplier=mult)
+            ref = tgt.seq_array() if sc["asarray"] else tgt
+            if mult == 2 and sc["var"] % 2 == 0:
+                est = CazacBasedChannelEstimator(ref)                      # the documented default (comb pattern)
+            else:
+                est = CazacBasedChannelEstimator(ref, size_multiplier=mult)
         got = call(est.estimate_channel_freq_domain, Y, K)
     # expected: DFT of the impulse response TLC computed for the kept window (= the target's taps)
     want = np.zeros((nrx, nsc), dtype=complex)
@@ -505,6 +554,8 @@ def run(ctx):
         cfg, defs = c18_session.sess_model(row[1], row[2], row[3], row[4], row[5], seed=ctx.seed)
         return tlc.run(c18_session.MODULE, cfg, defs=defs, coverage=True, env=JVM_ENV, heap="1500m")
 
+    import time as _t
+    t0 = _t.time()
     with ThreadPoolExecutor(nthreads) as ex:
         dev_f = [ex.submit(run_dev, d, ctx.seed) for d in DEV_RUNS]
         dev_f += [ex.submit(c18_session.run_dev, d, ctx.seed) for d in c18_session.DEV_RUNS]
@@ -519,6 +570,7 @@ def run(ctx):
         ctx.account(r, MODULE, job[0])
         cases += r.emitted
     ctx.require_actions(ACTIONS)
+    t1 = _t.time()
     seen = set()
     uniq = []
     for c in cases:
@@ -529,6 +581,7 @@ def run(ctx):
     # cheap cases in-process, the rest over the pool
     from ..core import pool_map
     res = pool_map(execute, uniq, chunksize=max(1, len(uniq) // 128))
+    t2 = _t.time()
     per_kind = {}
     sampled = set()
     for c, (verdict, what) in zip(uniq, res):
@@ -558,8 +611,11 @@ def run(ctx):
     npaths = sum(c18_session.explore(ctx, row, r) for row, r in zip(sess, sess_runs))
     ctx.require_actions(["CreateUser", "CreateEst", "Estimate", "CatUe", "CatEst"])
     ctx.notes["session_paths_replayed"] = npaths
+    t3 = _t.time()
     from . import c18_trace
     c18_trace.run(ctx)
+    ctx.notes["phase_wall_s"] = {"tlc": round(t1 - t0, 1), "replay": round(t2 - t1, 1), "session": round(t3 - t2, 1),
+                                 "trace": round(_t.time() - t3, 1)}
     ctx.notes["exhaustive_parts"] = ["prime selection for every size 12, 24, 25..1200",
                                      "Zadoff-Chu algebra: every root and lag for every odd N in the configured set",
                                      "cyclic shifts: every pair (a, b) for every configured length"]
